@@ -42,6 +42,8 @@ RULE = (
     "distinct by content hash"
 )
 PARTIAL = [
+    "non-finite INPUT values: `==` / `in` / `remove` are pinned (NaN equals NaN only, infinities equal with the same sign only: "
+    "`closeX`, `close_nonfinite`, `eqnf` cases); arithmetic on non-finite inputs is not modelled",
     "in-place operators (`+=` …) are not defined: Python falls back to `x = x + y` (a new object, operands untouched) — covered "
     "by the binary cases; unary `-`, `abs`, `**` and reflected `+ - /` are absent (TypeError, sampled in `sc` cases); "
     "BasisFunctionalData defines no arithmetic at all and its `==` is object identity (documented, not modelled)",
@@ -117,8 +119,12 @@ def X(what):
     return dict(k="X", what=what)
 
 
+def _num(x):
+    return float(x) if x in ("nan", "inf", "-inf") else float(F(x))
+
+
 def _arr(v):
-    return np.array([float(F(x)) for x in v], dtype=float)
+    return np.array([_num(x) for x in v], dtype=float)
 
 
 def _dense_argvals(grid):
@@ -131,7 +137,7 @@ def build(d):
     A, V, FD = _fd()
     if d["k"] == "D":
         pts = tuple(len(g) for g in d["grid"])
-        vals = np.array([[float(F(x)) for x in r] for r in d["rows"]], dtype=float).reshape((len(d["rows"]),) + pts)
+        vals = np.array([[_num(x) for x in r] for r in d["rows"]], dtype=float).reshape((len(d["rows"]),) + pts)
         return FD.DenseFunctionalData(_dense_argvals(d["grid"]), V.DenseValues(vals))
     if d["k"] == "I":
         grids = {l: g for l, g, _ in d["obs"]}
@@ -747,6 +753,70 @@ def mv_cases(rng: Rng, n):
         yield dict(kind="mv", mode=rng.choice(["remove", "remove", "in"]), comps=comps, item=item, same=same, tag=tag)
 
 
+def _pooled_variant(rng: Rng, a):
+    """An irregular dataset with the same labels, the same sizes and the same POOLED grid as `a`, but other
+    per-observation grids: the grids of two observations swapped, or one point moved onto a point that another
+    observation already has (a point the pooled grid keeps through someone else).  None when impossible."""
+    obs = [list(o) for o in a["obs"]]
+    n = len(obs)
+    pairs = [(i, j) for i in range(n) for j in range(i + 1, n)
+             if [len(t) for t in obs[i][1]] == [len(t) for t in obs[j][1]] and obs[i][1] != obs[j][1]]
+    if pairs and rng.random() < 0.6:
+        i, j = rng.choice(pairs)
+        obs[i][1], obs[j][1] = obs[j][1], obs[i][1]
+        return dict(k="I", obs=[[l, g, [q(v) for v in rvals(rng, len(vs))]] for l, g, vs in obs])
+    cands = []
+    for j in range(n):
+        for d in range(len(obs[j][1])):
+            mine = [F(t) for t in obs[j][1][d]]
+            others = [F(t) for k2 in range(n) if k2 != j and d < len(obs[k2][1]) for t in obs[k2][1][d]]
+            for pos, t in enumerate(mine):
+                if t in others:                      # the pooled grid keeps t through another observation
+                    for new in sorted(set(others) - set(mine)):
+                        cands.append((j, d, pos, new))
+    if not cands:
+        if pairs:
+            i, j = rng.choice(pairs)
+            obs[i][1], obs[j][1] = obs[j][1], obs[i][1]
+            return dict(k="I", obs=[[l, g, [q(v) for v in rvals(rng, len(vs))]] for l, g, vs in obs])
+        return None
+    j, d, pos, new = rng.choice(cands)
+    g = [list(t) for t in obs[j][1]]
+    col = [F(t) for t in g[d]]
+    col[pos] = new
+    g[d] = [q(t) for t in sorted(col)]
+    obs[j][1] = g
+    return dict(k="I", obs=[[l, gg, [q(v) for v in rvals(rng, len(vs))]] for l, gg, vs in obs])
+
+
+def pooled_cases(rng: Rng, n):
+    """Irregular operands that differ in their per-observation grids only, sizes and pooled grid being equal."""
+    for _ in range(n):
+        dim = rng.choice([1, 1, 2])
+        nobs = rng.choice([2, 2, 3])
+        sizes = [rng.choice([2, 3]) for _ in range(dim)]
+        lattice = [[Fraction(k, 4) for k in range(0, 7)] for _ in range(dim)]
+        obs = []
+        for l in range(nobs):
+            g = [[q(t) for t in sorted(rng.sample(lattice[d], sizes[d]))] for d in range(dim)]
+            obs.append((l, g, rvals(rng, gsize(g))))
+        a = I(obs)
+        b = _pooled_variant(rng, a)
+        if b is None:
+            continue
+        if rng.random() < 0.5:
+            a, b = b, a
+        mode = rng.random()
+        if mode < 0.4:
+            yield dict(kind="bin", op=rng.choice(OPS), a=a, b=b, respect="grid", pooled=True)
+        elif mode < 0.75:
+            same_vals = dict(k="I", obs=[[l, g, va] for (l, g, _), (_, _, va) in zip(b["obs"], a["obs"])])
+            yield dict(kind="eq", a=a, b=same_vals, tag="differs:grid-pooled")
+        else:
+            same_vals = dict(k="I", obs=[[l, g, va] for (l, g, _), (_, _, va) in zip(b["obs"], a["obs"])])
+            yield dict(kind="mv", mode=rng.choice(["remove", "in"]), comps=[rdense(rng, nobs=nobs), a], item=same_vals, same=None, tag="absent-grid-pooled")
+
+
 def mvop_cases(rng: Rng, n):
     """The operators a multivariate object inherits from `UserList`: `+` (concatenation through the
     constructor), `*` (repetition), `==` (list equality) — not arithmetic."""
@@ -773,6 +843,73 @@ def mvop_cases(rng: Rng, n):
             else:
                 ds = list(reversed(cs))
             yield dict(kind="mvop", mode="eq", cs=cs, ds=ds)
+
+
+SPECIALS = ["nan", "inf", "-inf"]
+
+
+def nonfinite_cases(rng: Rng, n):
+    """`==`, `in`, `remove` between datasets on the same grid whose values hold NaN / +inf / -inf: NaN on both
+    sides is equal, NaN on one side only is a difference, infinities are equal only with the same sign."""
+    for _ in range(n):
+        kind = rng.choice(["D", "I"])
+        base = rdata(rng, kind, zeros=False)
+        rows = base["rows"] if kind == "D" else [o[2] for o in base["obs"]]
+        cells = [(i, j) for i, r in enumerate(rows) for j in range(len(r))]
+        if not cells:
+            continue
+        import copy
+
+        a, b = copy.deepcopy(base), copy.deepcopy(base)
+        ra = a["rows"] if kind == "D" else [o[2] for o in a["obs"]]
+        rb = b["rows"] if kind == "D" else [o[2] for o in b["obs"]]
+        for (i, j) in rng.sample(cells, min(len(cells), rng.randint(1, 3))):
+            c = rng.random()
+            if c < 0.3:
+                sp = rng.choice(SPECIALS)
+                ra[i][j] = rb[i][j] = sp                         # the same special value on both sides
+            elif c < 0.6:
+                (ra if rng.random() < 0.5 else rb)[i][j] = rng.choice(SPECIALS)   # on one side only
+            elif c < 0.8:
+                ra[i][j], rb[i][j] = rng.choice([("inf", "-inf"), ("-inf", "inf")])
+            else:
+                ra[i][j], rb[i][j] = rng.choice([("nan", "inf"), ("inf", "nan"), ("nan", "-inf")])
+        mode = rng.random()
+        if mode < 0.7:
+            yield dict(kind="eqnf", a=a, b=b, mode="eq")
+        else:
+            yield dict(kind="eqnf", a=a, b=b, mode=rng.choice(["in", "remove"]))
+
+
+def _flat_tokens(d):
+    rows = d["rows"] if d["k"] == "D" else [o[2] for o in d["obs"]]
+    flat = [x for r in rows for x in r]
+    return "-" if not flat else ",".join(x if x in SPECIALS else q(x) for x in flat)
+
+
+def run_eqnf(case):
+    A, V, FD = _fd()
+    a, b = build(case["a"]), build(case["b"])
+    out = dict(plain=plain_eq(a, b))
+    try:
+        if case["mode"] == "eq":
+            r = a == b
+            out.update(res=bool(r), rtype=type(r).__name__, res_ba=bool(b == a))
+        else:
+            other = build(D([[0, 1]], [[1, 2]] * _nobs(a))) if _nobs(a) else None
+            comps = [c for c in (other, a) if c is not None]
+            m = FD.MultivariateFunctionalData(list(comps))
+            if case["mode"] == "in":
+                out.update(res=bool(b in m), rtype="bool")
+            else:
+                try:
+                    m.remove(b)
+                    out.update(res=True, rtype="bool", removed_right=all(c is not a for c in m.data))
+                except ValueError:
+                    out.update(res=False, rtype="bool")
+    except Exception as e:  # noqa: BLE001
+        out.update(err=_ecls(e), msg=str(e)[:120])
+    return out
 
 
 def bin_cases(rng: Rng, n):
@@ -936,6 +1073,8 @@ def gen_cases(rng: Rng, tier):
     yield from derived_cases(rng, 45 * k)
     yield from decimal_cases(rng, 30 * k)
     yield from mvop_cases(rng, 40 * k)
+    yield from pooled_cases(rng, 40 * k)
+    yield from nonfinite_cases(rng, 50 * k)
     yield from sc_cases(rng, 90 * k)
     yield from ident_cases(rng, 40 * k)
     yield from eq_cases(rng, 120 * k)
@@ -1187,6 +1326,8 @@ def run_impl(case):
     quiet()
     if case["kind"] == "mvop":
         return run_mvop(case)
+    if case["kind"] == "eqnf":
+        return run_eqnf(case)
     return {"bin": run_bin, "sc": run_sc, "ident": run_ident, "eq": run_eq, "mv": run_mv}[case["kind"]](case)
 
 
@@ -1215,6 +1356,9 @@ def model_lines(case, impl):
         if case["b"]["k"] == "X" or case["a"]["k"] == "X":
             return []
         return [" ".join(["eq"] + tok(case["a"]) + tok(case["b"]))]
+    if k == "eqnf":
+        # same grid, same shapes by construction: the verdict is the closeness of the two value arrays
+        return ["xclose " + _flat_tokens(case["a"]) + " " + _flat_tokens(case["b"])]
     if k == "mvop":
         toks = ["mv" + case["mode"]]
         if case["mode"] == "mul":
@@ -1237,7 +1381,7 @@ def model_lines(case, impl):
 
 
 def parse_model(case, outs):
-    if case["kind"] == "mvop":
+    if case["kind"] in ("mvop", "eqnf"):
         return dict(raw=outs[0])
     return parse_answer(outs[0])
 
@@ -1292,6 +1436,13 @@ def cmp_data(ri, rm, where="result"):
 def compare(case, impl, model):
     if "__crash__" in impl:
         return [f"implementation harness crashed: {impl['__crash__']} {impl.get('msg')} {impl.get('tb', '')[-300:]}"]
+    if case["kind"] == "eqnf":
+        raw = model["raw"]
+        if raw not in ("true", "false"):
+            return [f"model answered {raw!r}"]
+        if "err" in impl:
+            return [f"non-finite values: {case['mode']} raised {impl['err']}, model {raw}"]
+        return [] if str(impl["res"]).lower() == raw else [f"non-finite values: {case['mode']} gave {impl['res']}, model {raw}"]
     if case["kind"] == "mvop":
         raw = model["raw"]
         if raw.startswith("bad") or raw == "illformed":
@@ -1343,6 +1494,16 @@ def oracle(case, impl):
                      msg=f"crash {impl['__crash__']}: {impl.get('msg')} {impl.get('tb', '')[-300:]}")]
     k = case["kind"]
     vs = []
+    if k == "eqnf":
+        entry = {"eq": "__eq__", "in": "__contains__", "remove": "remove"}[case["mode"]]
+        if "err" in impl:
+            return [dict(clause="eq_total", entry=entry, causes=["raises_" + impl["err"]], msg=f"{case['mode']} on data with non-finite values raised {impl['err']}: {impl.get('msg')}")]
+        if impl["res"] != impl["plain"]:
+            vs.append(dict(clause="eq_spec" if case["mode"] == "eq" else "membership", entry=entry, causes=["nonfinite_wrong_verdict"],
+                           msg=f"{case['mode']} gave {impl['res']} on values {_flat_tokens(case['a'])} vs {_flat_tokens(case['b'])}; NaN equals NaN only, an infinity equals the infinity of the same sign only: {impl['plain']}"))
+        if case["mode"] == "eq" and impl.get("rtype") != "bool":
+            vs.append(dict(clause="eq_total", entry=entry, causes=["not_bool"], msg=f"== returned a {impl.get('rtype')}"))
+        return vs
     if k == "mvop":
         entry = {"add": "MultivariateFunctionalData.__add__", "mul": "MultivariateFunctionalData.__mul__", "eq": "MultivariateFunctionalData.__eq__"}[case["mode"]]
         if "err" not in impl:
